@@ -526,3 +526,54 @@ def run_swapped(prog, rep):
     if n < 20:
         raise AnalysisBroken('R-SWAP: only %d calls with name-matching arguments found' % n)
     return rule
+
+
+def run_memtype(prog, rep):
+    """the memory type handed to a raw transfer describes the caller's buffer (mapped from its element type), never merely the data set's own file type"""
+    rule = rep.rule('R-MEMTYPE', 'every raw transfer is given a memory type made from the buffer\'s element type (memtype mapping), not the data set\'s file type', floor=10)
+    sem = Sem(prog)
+    MAKERS = ('data_type_to_h5_memtype', 'h5_type_for_value', 'h5_type_for_old_value', 'makeCompound', 'makeStrType', 'data_type_to_h5')
+    n = 0
+    seen = set()
+    for f in sorted(prog.funcs.values(), key=lambda f: (f.file, f.line)):
+        if f.body is None or not f.q.startswith('nix::hdf5::'):
+            continue
+        if f.instantiation:
+            if f.pattern in seen:
+                continue
+            seen.add(f.pattern)
+        fl = None
+        for c in f.calls():
+            if c.callee.get('name') not in ('read', 'write') or 'DataSet' not in (c.callee.get('cls') or ''):
+                continue
+            sig = c.callee.get('sig') or ''
+            if 'void *' not in sig:
+                continue
+            a = real_args(c)
+            if len(a) < 2 or a[1] is None:
+                continue
+            n += 1
+            fl = fl or Flow(sem, f)
+            mt = a[1]
+            org = fl.origins(mt)
+            names = set(o[1] for o in org if o[0] in ('call', 'out'))
+            params = set(o[1] for o in org if o[0] == 'param')
+            fields = set(o[1] for o in org if o[0] == 'field')
+            key = '%s|%s@%s' % (re.sub(r'<.*', '', f.q), c.callee.get('name'), mt.src(20))
+            tm = term(unwrap(mt))
+            janus = isinstance(tm, tuple) and tm[:2] == ('mem', 'dtype') and tm[2][0] == 'v' and 'Janus' in ((sem.local_vars(f).get(tm[2][1]) or {}).get('type') or '' if sem.local_vars(f).get(tm[2][1]) is not None else '')
+            if janus:
+                rule.ok(key, rep.where(c), f.label(), 'memory type is the partial compound built by Janus for this transfer (layout: R-DF-LAYOUT)', nontrivial=False)
+            elif names & set(MAKERS):
+                rule.ok(key, rep.where(c), f.label(), 'memory type from %s' % sorted(names & set(MAKERS)))
+            elif params and not names:
+                rule.ok(key, rep.where(c), f.label(), 'memory type is the caller\'s parameter %s' % sorted(params), nontrivial=False)
+            elif 'dtype' in fields or any('dtype' in x for x in fields):
+                rule.ok(key, rep.where(c), f.label(), 'memory type is the compound built for this transfer (%s)' % sorted(fields), nontrivial=False)
+            elif 'dataType' in names:
+                rule.bad(key, rep.where(c), f.label(), 'the memory type is the data set\'s own file type (%s): the bytes of the caller\'s buffer are taken as if they already had the stored type - no conversion happens, values of another element type are stored as reinterpreted bytes' % mt.src(30))
+            else:
+                rule.bad(key, rep.where(c), f.label(), 'cannot see where the memory type %s comes from (%s)' % (mt.src(30), sorted(names)))
+    if n < 10:
+        raise AnalysisBroken('R-MEMTYPE: only %d raw transfers found' % n)
+    return rule
